@@ -141,6 +141,125 @@ theorem wany_fire_spec {s : St} (h : RI s) (d : SInv s) (j : Nat) (t : Timer) (a
   rw [hc] at hp
   simp at hp
 
+/-! ### the completion of an activity wakes only the actors registered on it -/
+
+theorem unregister_other (k : K) (i b a : Nat) (h : a ≠ b) : (k.unregister i b).actor a = k.actor a := by
+  unfold K.unregister
+  rw [actor_setActor_ne _ _ _ _ (Ne.symm h)]; rfl
+
+theorem foldl_unregister_other (l : List Nat) (b a : Nat) (k : K) (h : a ≠ b) :
+    (l.foldl (fun k j => k.unregister j b) k).actor a = k.actor a := by
+  induction l generalizing k with
+  | nil => rfl
+  | cons x xs ih => simp only [List.foldl]; rw [ih, unregister_other _ _ _ _ h]
+
+theorem ufAll_other (k : K) (i b a : Nat) (h : a ≠ b) : (k.ufAll i b).actor a = k.actor a := by
+  have hs : ∀ (k0 : K) (f : Actor → Actor), (k0.setActor b f).actor a = k0.actor a :=
+    fun k0 f => actor_setActor_ne k0 b a f (Ne.symm h)
+  have h1 : (k.uf1 i b).actor a = k.actor a := by unfold K.uf1; rw [hs]; rfl
+  have h2 : ∀ k0 : K, (k0.uf2 b).actor a = k0.actor a := by
+    intro k0; unfold K.uf2; split
+    · rw [hs]; rfl
+    · rfl
+  have h3 : ∀ k0 : K, (k0.uf3 i b).actor a = k0.actor a := by
+    intro k0; unfold K.uf3; split
+    · rfl
+    · rw [hs, foldl_unregister_other _ _ _ _ h]
+  unfold K.ufAll
+  rw [h3, h2, h1]
+
+theorem answer_other (k : K) (b a : Nat) (h : a ≠ b) : (k.answer b).actor a = k.actor a := by
+  unfold K.answer; split
+  · show (k.setActor b _).actor a = _
+    exact actor_setActor_ne k b a _ (Ne.symm h)
+  · rfl
+
+theorem finishOne_other (k : K) (i b a : Nat) (h : a ≠ b) : (k.finishOne i b).actor a = k.actor a := by
+  unfold K.finishOne
+  simp only []
+  split
+  · rw [answer_other _ _ _ h]
+    split
+    · rw [actor_setActor_ne _ _ _ _ (Ne.symm h)]
+      show ((k.ufAll i b).setImpl i _).actor a = _
+      rw [actor_setImpl, ufAll_other _ _ _ _ h]
+    · show ((k.ufAll i b).setImpl i _).actor a = _
+      rw [actor_setImpl, ufAll_other _ _ _ _ h]
+  · exact ufAll_other _ _ _ _ h
+
+/-- `finish()` of activity `j` does not touch an actor that is not dying and does not wait for `j` — given the
+registration invariant: this is where a stale registration would wake a sleeper early -/
+theorem finishLoop_other (k : K) (j n a : Nat) (h : RegInv k) (hwd : (k.actor a).wannadie = false)
+    (hj : j ∉ (k.actor a).waiting) : (k.finishLoop j n).actor a = k.actor a := by
+  induction n generalizing k with
+  | zero => rfl
+  | succ n ih =>
+    rw [finishLoop_succ]
+    split
+    · rfl
+    · rename_i b rest hs
+      have hne : a ≠ b := by
+        intro e
+        have hc := h.cnt a j hwd
+        have : (k.simF j).count a = ((k.impl j).simcalls).count a := rfl
+        rw [this, hs, e] at hc
+        have h0 : (k.arF b).waiting.count j = 0 := by
+          rw [← e]; exact List.count_eq_zero.mpr hj
+        rw [h0] at hc
+        simp at hc
+      have e1 := finishOne_other k j b a hne
+      rw [ih _ (finishOne_reg k j b rest h hs) (by rw [e1]; exact hwd) (by rw [e1]; exact hj), e1]
+
+theorem finish_other (k : K) (j a : Nat) (h : RegInv k) (hwd : (k.actor a).wannadie = false)
+    (hj : j ∉ (k.actor a).waiting) : (k.finish j).actor a = k.actor a := by
+  unfold K.finish
+  simp only []
+  have h1 : RegInv ({ k.setImpl j (fun x => { x with
+      st := if (k.impl j).kind.timed then
+              (if (k.impl j).act == .none then (k.impl j).st else if (k.impl j).act == .failed then .canceled else .done)
+            else (if (k.impl j).st == .running then .done else (k.impl j).st),
+      act := .none }) with
+      heap := (k.setImpl j (fun x => { x with
+        st := if (k.impl j).kind.timed then
+              (if (k.impl j).act == .none then (k.impl j).st else if (k.impl j).act == .failed then .canceled else .done)
+            else (if (k.impl j).st == .running then .done else (k.impl j).st),
+        act := .none })).heap.filter (fun e => e.impl != j),
+      failedQ := (k.setImpl j (fun x => { x with
+        st := if (k.impl j).kind.timed then
+              (if (k.impl j).act == .none then (k.impl j).st else if (k.impl j).act == .failed then .canceled else .done)
+            else (if (k.impl j).st == .running then .done else (k.impl j).st),
+        act := .none })).failedQ.erase j,
+      doneQ := (k.setImpl j (fun x => { x with
+        st := if (k.impl j).kind.timed then
+              (if (k.impl j).act == .none then (k.impl j).st else if (k.impl j).act == .failed then .canceled else .done)
+            else (if (k.impl j).st == .running then .done else (k.impl j).st),
+        act := .none })).doneQ.erase j } : K) := by
+    refine h.same ?_
+    apply rsame_impls <;> (try rfl)
+    simp only [K.setImpl]
+    rw [map_upd_inv]
+    intro _; rfl
+  exact finishLoop_other _ j _ a h1 hwd hj
+
+/-- the timeout of another actor's wait does not touch `a` -/
+theorem fire_timeout_other (k : K) (t : Timer) (b a : Nat) (hcb : cbActor t.cb = some b) (h : a ≠ b) :
+    (k.fire t).actor a = k.actor a := by
+  have hs : ∀ (k0 : K) (f : Actor → Actor), (k0.setActor b f).actor a = k0.actor a :=
+    fun k0 f => actor_setActor_ne k0 b a f (Ne.symm h)
+  unfold K.fire
+  cases hc : t.cb with
+  | kill c => rw [hc] at hcb; cases hcb
+  | wto c i =>
+    rw [hc] at hcb; injection hcb with hcb; subst hcb
+    simp only []
+    split
+    · rw [hs]
+    · rw [answer_other _ _ _ h, hs, unregister_other _ _ _ _ h, hs]
+  | wany c is =>
+    rw [hc] at hcb; injection hcb with hcb; subst hcb
+    simp only []
+    rw [answer_other _ _ _ h, hs, foldl_unregister_other _ _ _ _ h, hs]
+
 /-! ### regression: the double registration of the old `MessImpl::wait_for` (before 4c67abe5fd)
 
 The old kernel-side `MessImpl::wait_for` called `register_simcall(&issuer->simcall_)` and then
